@@ -5,7 +5,7 @@
    Scale regime ([CBlockScale]): decimal geometry; the result must be a lattice block whose
    first / last cell indices are admissible for the request within 1e-9 relative, with the
    values and validity of exactly those source cells. *)
-From DF Require Import Prelude Constants_gen Region Mesh Select.
+From DF Require Export Prelude Constants_gen Region Mesh Select.
 Open Scope Q_scope.
 
 Definition rel_tol : Q := 1 # 1000000000.            (* 1e-9 *)
@@ -190,13 +190,31 @@ Definition clearly_outside (m : mesh) (xs : list (option Q)) : bool :=
              Qltb v (lo - t) || Qltb (hi + t) v end)
           (pmin (reg m)) (pmax (reg m)) xs).
 
+(* a coordinate exactly on an interior face belongs to both neighbouring cells: the lower
+   neighbour is the cell of x - cell/2 *)
+Definition on_face (m : mesh) (a : nat) (x : Q) : bool :=
+  let t := (x - nth a (pmin (reg m)) 0) / nth a (cell m) 0 in
+  Qeq_bool t (inject_Z (Qfloor t)) && (0 <? Qfloor t)%Z && (Qfloor t <? nth a (n m) 0%Z)%Z.
+Definition coord_alts (m : mesh) (a : nat) (x : Q) : list Q :=
+  if on_face m a x then [x; x - nth a (cell m) 0 / 2] else [x].
+Definition sel_alts (m : mesh) (a : nat) (s : selarg) : list selarg :=
+  match s with
+  | SCentre => SCentre :: (if on_face m a (nth a (center (reg m)) 0)
+                           then [SPoint (nth a (center (reg m)) 0 - nth a (cell m) 0 / 2)] else [])
+  | SPoint x => map SPoint (coord_alts m a x)
+  | SRange x1 x2 =>
+      flat_map (fun y1 => map (fun y2 => SRange y1 y2) (coord_alts m a (Qmax x1 x2)))
+               (coord_alts m a (Qmin x1 x2))
+  end.
+
 Definition check_C07 (c : c07_case) : bool :=
   match c with
   | CSel s a arg om ofd =>
       match build_field s with
       | Err _ => false
-      | OK F => cmp mesh_match (mesh_sel (fmesh F) a arg) om &&
-                cmp fres_match (field_sel F a arg) ofd
+      | OK F => existsb (fun arg' => cmp mesh_match (mesh_sel (fmesh F) a arg') om &&
+                                     cmp fres_match (field_sel F a arg') ofd)
+                        (sel_alts (fmesh F) a arg)
       end
   | CGetRegion s q1 q2 om ofd =>
       match build_field s with
